@@ -127,6 +127,27 @@ theorem job_run_ok_iff_all (ty : α → Nat) (batched : Nat → Bool) (verify1 :
         (hperm.mem_iff).1 (List.mem_append.2 (Or.inl ht))
       rw [h t hmem] at hk; cases hk
 
+/-- **Statement of the property with the digest explicit**: block signature verification succeeds
+iff every transaction's auth verifies over that transaction's unsigned bytes. -/
+theorem block_sigs_ok_iff_all_verify_unsigned {M A : Type} (verify : M → A → Bool) (tyOf : A → Nat)
+    (batched : Nat → Bool) (cores : Nat) (txs : List (SigTx M A)) :
+    verifyBlockSigs verify tyOf batched cores txs = true ↔
+      ∀ tx ∈ txs, verify tx.unsigned tx.auth = true := by
+  unfold verifyBlockSigs
+  rw [job_ok_iff_all]
+  simp [blockItems]
+
+/-- the same under every schedule of the worker pool (C26 job contract) -/
+theorem block_sigs_run_ok_iff_all_verify_unsigned {M A : Type} (verify : M → A → Bool) (tyOf : A → Nat)
+    (batched : Nat → Bool) (cores : Nat) (txs : List (SigTx M A)) (executed : List (List (M × A)))
+    (err : Bool)
+    (run : JobRun (fun x => verify x.1 x.2)
+      (blockTasks (fun x => tyOf x.2) batched cores (blockItems txs)) executed err) :
+    err = false ↔ ∀ tx ∈ txs, verify tx.unsigned tx.auth = true := by
+  rw [job_run_ok_iff_all (fun x => tyOf x.2) batched (fun x => verify x.1 x.2) cores (blockItems txs)
+    executed err run]
+  simp [blockItems]
+
 /-- **Overlapping signature jobs on one pool.** For any sequence of blocks whose signature jobs
 share one worker pool (created / submitted / completed in any order, as happens when `Execute`
 returns early on another error while its signature job is still running), every block's verdict
